@@ -12,7 +12,7 @@ run_demo() { # prints exit code
     pkg=$(grep -m1 '^package ' "$MD/demo_test.go" | awk '{print $2}')
     case "$pkg" in
       boc|boc_test) d=boc;; tlb|tlb_test) d=tlb;; wallet|wallet_test) d=wallet;; liteclient|liteclient_test) d=liteclient;;
-      pool|pool_test) d=liteapi/pool;; tl|tl_test) d=tl;; ton|ton_test) d=ton;; tonconnect|tonconnect_test) d=tonconnect;;
+      pool|pool_test) d=liteapi/pool;; parser|parser_test) if grep -q "tlb/parser/" "$MD/meta.json" 2>/dev/null; then d=tlb/parser; else d=tl/parser; fi;; tl|tl_test) d=tl;; ton|ton_test) d=ton;; tonconnect|tonconnect_test) d=tonconnect;;
       *) echo "unknown package $pkg" >&2; return 99;;
     esac
     cp "$MD/demo_test.go" "$WT/$d/zz_seed_demo_test.go"
